@@ -41,7 +41,7 @@ WCorrupt(t, fl, hf) == [nodes |-> << F(1, 0, "a.txt", Run(120, 5), NoZip, FALSE)
                                      D(4, 0, "zz"), F(5, 4, "after.txt", Run(120, 1), NoZip, FALSE) >>]
 
 Clocks == <<1493640000, 1490918400, 1462017600>>      \* 2017-05-01 12:00, 2017-03-31 00:00, 2016-04-30 12:00 (UTC)
-QVariants == { [wh |-> w, ord |-> o, lim |-> k] : w \in BOOLEAN, o \in {"none", "size-", "size+"}, k \in {0, 1, 2, 3, 5, 8, 13, 17, 30} }
+QVariants == { [wh |-> w, ord |-> o, lim |-> k] : w \in BOOLEAN, o \in {"none", "size-", "size+"}, k \in (0 .. 14) \cup {17, 30} }
 
 Init == kind = "" /\ variant = [wh |-> FALSE, ord |-> "none", lim |-> 0, t |-> -1, flip |-> 0, clock |-> 0, depth |-> 0, owncfg |-> FALSE] /\ phase = "start"
 (* depth: `depth N` on the root (0 = none): the members of an archive lying exactly at level N are still listed *)
